@@ -21,6 +21,9 @@ PROP_FILE = 'Props/C06.v'
 THEOREMS = [
     'C06_io_error_restores', 'C06_crash_recoverable_content', 'C06_crash_recoverable', 'C06_refuses_leftover',
     'C06_crashed_then_refused', 'C06_journal_round_trip', 'C06_success_appends', 'C06_unlink_fault_state',
+    'C06_reader_front_local', 'C06_crash_recoverable_warc', 'C06_crash_recoverable_warc_gz', 'C06_append_outcome',
+    'C06_history_content', 'C06_history_no_journal', 'C06_history_then_crash_warc', 'C06_history_then_crash_warc_gz',
+    'C06_init_refuses',
 ]
 TRUSTED = [
     'hand-written model Model/Journal.v of WARCRecorder.write_record / _check_journals_and_maybe_raise over Lib/FsModel.v '
@@ -94,54 +97,60 @@ def digest_ok(fields, block):
     return d == b'sha1:' + base64.b32encode(hashlib.sha1(block).digest())
 
 
-def parse_plain(b):
+def parse_plain(b, digests=True):
     pos = 0
     out = []
     while pos < len(b):
         r = read_record(b, pos)
         if r is None:
             return None
-        if not digest_ok(r[0], r[1]):
+        if digests and not digest_ok(r[0], r[1]):
             return None
         out.append(r)
         pos = r[2]
     return out
 
 
-def gz_members(b):
-    """split into gzip members: [(member_bytes, payload)] or None (truncated / garbage)"""
+def gz_split(b):
+    """the complete gzip members at the front of b and what is left: ([(member, payload)], rest)"""
     out = []
     while b:
         d = zlib.decompressobj(31)
         try:
             p = d.decompress(b)
         except zlib.error:
-            return None
+            break
         if not d.eof:
-            return None
+            break
         used = len(b) - len(d.unused_data)
         if used <= 0:
-            return None
+            break
         out.append((b[:used], p))
         b = d.unused_data
-    return out
+    return out, b
 
 
-def parse_gz(b):
+def gz_members(b):
+    """split into gzip members: [(member_bytes, payload)] or None (truncated / garbage)"""
+    ms, rest = gz_split(b)
+    return None if rest else ms
+
+
+def parse_gz(b, digests=True):
     ms = gz_members(b)
     if ms is None:
         return None
     out = []
     for _, p in ms:
         r = read_record(p, 0)
-        if r is None or r[2] != len(p) or not digest_ok(r[0], r[1]):
+        if r is None or r[2] != len(p) or (digests and not digest_ok(r[0], r[1])):
             return None       # exactly one record per member
         out.append(r)
     return out
 
 
-def valid_archive(b, compress):
-    return (parse_gz(b) if compress else parse_plain(b)) is not None
+def valid_archive(b, compress, digests=True):
+    return (parse_gz(b, digests) if compress else parse_plain(b, digests)) is not None
 
 
 JOURNAL = re.compile(rb'^wpull-journal-version:1\noffset:([0-9]+)\n$')
@@ -161,8 +170,10 @@ def configs(thorough):
     for compress in (False, True):
         for state, prior in ARCHIVES:
             for new, bufsize in NEWRECS:
+                if not thorough and new == NEWRECS[2][0] and not prior:
+                    continue        # quick: the single-write record with a block only on archives with earlier data records
                 c = {'compress': compress, 'archive_state': state, 'prior': prior, 'new': new, 'enumerate': 'few',
-                     'restart_appending': i % 2 == 0, 'extra_files': {'other.cdx': '00ff10', 'outx.warc': '41'}}
+                     'restart_appending': i % 2 == 0, 'kill': 'fork' if thorough else 'sim', 'extra_files': {'other.cdx': '00ff10', 'outx.warc': '41'}}
                 if bufsize:
                     c['bufsize'] = bufsize
                 out.append(c)
@@ -286,12 +297,26 @@ def violations_of(cfg, res):
 # model side: Coq terms
 # ---------------------------------------------------------------------------
 HEADER = '''From Coq Require Import List NArith Bool String.
-From Wpull Require Import Lib.Hex Lib.FsModel Model.Journal.
+From Wpull Require Import Lib.Hex Lib.FsModel Model.Journal Spec.WarcReader.
 Import ListNotations.
 Open Scope string_scope.
 Open Scope N_scope.
 Fixpoint cuts (l : list N) (ns : list nat) : list (list N) :=
   match ns with [] => [] | n :: r => firstn n l :: cuts (skipn n l) r end.
+Definition F k d w := Some (Intr k d w).
+Definition opt (n : name) (c : option bytes) : fs := match c with Some b => [(n, b)] | None => [] end.
+(* the crash clause of C06 as a boolean over the strict reader V: the archive is valid, or the journal is a
+   complete journal naming the old length and cutting the archive there gives the old, valid, content *)
+Definition crash_ok (V : bytes -> bool) (old : bytes) (a j : option bytes) : bool :=
+  let arch := match a with Some b => b | None => [] end in
+  V arch || match j with
+            | Some jc => match parse_journal jc with
+                         | Some off => (off =? N.of_nat (List.length old)) && (off <=? N.of_nat (List.length arch))
+                                       && V (truncate_to off arch) && list_eqb (truncate_to off arch) old
+                         | None => false
+                         end
+            | None => false
+            end.
 '''
 
 
@@ -379,8 +404,6 @@ def model_check_terms(cfg, res):
     rest = {fn: c for fn, c in before.items() if fn not in (A, J)}
     defs += ['Definition chunks := cuts data [%s].' % '; '.join('%d%%nat' % n for n in sizes),
              'Definition s0 : fs := %s.' % fst(before),
-             'Definition F k d w := Some (Intr k d w).',
-             'Definition opt (n : name) (c : option bytes) : fs := match c with Some b => [(n, b)] | None => [] end.',
              '(* the expected directory: the untouched other files + archive + journal (order is irrelevant to fs_eqb) *)',
              'Definition mk (a j : option bytes) : fs := (%s ++ opt nA a ++ opt nJ j)%%list.' % fst(rest),
              'Definition chk f c k a j := result_eqb (write_record A chunks f c s0) k (mk a j).',
@@ -461,8 +484,42 @@ def model_check_terms(cfg, res):
             term, note = 'false', {'plan': run['plan'], 'outcome': run['outcome'], 'why': 'cannot map onto the model: %r' % (e,)}
         checks.append(term)
         notes.append(note)
+    # ---- the strict reader of Spec/WarcReader.v on the real bytes ----
+    compress = cfg['compress']
+    archives = []
+    for b in [old, bytes.fromhex(res['after_ref'].get(A, ''))] + [bytes.fromhex(run['after'].get(A, '')) for run in res['runs']]:
+        if b not in archives:
+            archives.append(b)
+    rdefs = []
+    if compress:
+        members = {}
+        for b in archives:
+            for mb, pl in gz_split(b)[0]:
+                members.setdefault(mb, pl)
+        for i, (mb, pl) in enumerate(members.items()):
+            rdefs.append('Definition gm%d := %s.' % (i, enc(mb)))
+            rdefs.append('Definition gp%d := %s.' % (i, hx(pl)))
+        rdefs.append('Definition tab := [%s].' % '; '.join('(gm%d, gp%d)' % (i, i) for i in range(len(members))))
+        rdefs.append('Definition V := warc_gz_valid (tab_gunzip tab).')
+    else:
+        rdefs.append('Definition V := warc_valid.')
+    for b in archives:
+        checks.append('Bool.eqb (V %s) %s' % (enc(b), 'true' if valid_archive(b, compress, digests=False) else 'false'))
+        notes.append({'what': 'strict reader verdict (Coq vs Python) on an archive of %d bytes' % len(b)})
+    seen = set()
+    for run in res['runs']:
+        if run['outcome'] == 'crashed':
+            after = run['after']
+            if (after.get(A), after.get(J)) in seen:
+                continue
+            seen.add((after.get(A), after.get(J)))
+            a = 'Some %s' % enc(bytes.fromhex(after[A])) if A in after else 'None'
+            j = 'Some %s' % enc(bytes.fromhex(after[J])) if J in after else 'None'
+            checks.append('crash_ok V old (%s) (%s)' % (a, j))
+            notes.append({'what': 'crash clause evaluated in Coq with the strict reader (distinct state after a kill)',
+                          'plan': run['plan']})
     i = next(i for i, d in enumerate(defs) if d.startswith('Definition chunks'))
-    return defs[:i] + enc.extra + defs[i:], checks, notes
+    return defs[:i] + enc.extra + defs[i:] + rdefs, checks, notes
 
 
 def res_journal(res):
@@ -494,7 +551,7 @@ def startup_cases(r, n):
     for i in range(n):
         prefix = PREFIXES[i % len(PREFIXES)]
         files = {}
-        t = r.randrange(8)
+        t = r.randrange(9)
         d, _, base = prefix.rpartition('/')
         dd = d + '/' if d else ''
         if t == 0:       # the journal of a file this prefix names
@@ -512,36 +569,223 @@ def startup_cases(r, n):
         elif t == 6:     # existing archive + its journal
             files[prefix + '.warc'] = '00'
             files[prefix + '.warc-wpullinc'] = '78'
-        else:
-            pass
+        elif t == 7:     # existing archives, no journal (append / overwrite / sequence skipping)
+            for sfx in r.sample(['.warc', '.warc.gz', '-00000.warc', '-00000.warc.gz', '-00001.warc', '-00001.warc.gz',
+                                 '-00002.warc.gz', '-meta.warc'], r.randrange(1, 5)):
+                files[prefix + sfx] = '6f6c64'
         if r.random() < 0.5:
             files[dd + 'note.txt'] = '79'
         cases.append({'kind': 'startup', 'prefix': prefix, 'files': files, 'appending': r.random() < 0.6,
-                      'compress': r.random() < 0.5, 'tag': t})
+                      'compress': r.random() < 0.5, 'max_size': r.choice([None, None, 1000]), 'tag': t})
     return cases
 
 
 def startup_terms(cases, results):
-    checks = []
+    """per case: (definitions, [two check terms]) and the violations of the property itself"""
+    items = []
     viol = []
     for c, res in zip(cases, results):
-        fs = '[' + '; '.join('(%s, [])' % hx(fn.encode()) for fn in sorted(c['files'])) + ']'
+        before = c['files']
+        after = res['after']
+        names = {}
+        defs = ['Definition pre := %s.' % hx(c['prefix'].encode())]
+        for i, fn in enumerate(sorted(set(before) | set(after))):
+            names[fn] = 'f%d' % i
+            defs.append('Definition f%d := %s.' % (i, hx(fn.encode())))
+
+        def small(v):
+            return hx(bytes.fromhex(v)) if v else '[]'
+        fs0 = '[' + '; '.join('(%s, %s)' % (names[fn], small(v)) for fn, v in sorted(before.items())) + ']'
+        defs.append('Definition s0 : fs := %s.' % fs0)
         exp = 'true' if res['check_refuses'] else 'false'
-        checks.append('Bool.eqb (match new_recorder_check (%s) %s with StartRefused => true | StartOk => false end) %s'
-                      % (hx(c['prefix'].encode()), fs, exp))
+        t1 = 'Bool.eqb (match new_recorder_check pre s0 with StartRefused => true | StartOk => false end) %s' % exp
+        # the constructor: refusal, or (truncate unless appending) + warcinfo append to the file the options name
+        refused = res['refuses'] is True
+        changed = [fn for fn in after if after[fn] != before.get(fn)]
+        info = b''
+        ok = True
+        appended = False
+        if not refused:
+            if len(changed) != 1 or [fn for fn in before if fn not in after]:
+                ok = False
+            else:
+                fn = changed[0]
+                new = bytes.fromhex(after[fn])
+                oldc = bytes.fromhex(before.get(fn, ''))
+                if c['appending'] and fn in before:
+                    ok = new.startswith(oldc)
+                    info = new[len(oldc):]
+                    appended = True
+                else:
+                    info = new
+        defs.append('Definition info : bytes := %s.' % (hx(info) if info else '[]'))
+        if ok:
+            ents = []
+            for fn, v in sorted(after.items()):
+                if not refused and fn == changed[0]:
+                    ents.append('(%s, %s)' % (names[fn], '(%s ++ info)%%list' % small(before[fn]) if appended else 'info'))
+                else:
+                    ents.append('(%s, %s)' % (names[fn], small(v)))
+            t2 = 'init_eqb (recorder_init pre %s %s %s [info] None None s0) %s [%s]' % (
+                'true' if c.get('max_size') else 'false', 'true' if c['compress'] else 'false',
+                'true' if c['appending'] else 'false', 'true' if refused else 'false', '; '.join(ents))
+        else:
+            t2 = 'false'
+        items.append((defs, [t1, t2]))
         # property on the implementation: a journal of a file the prefix can name => refusal, directory untouched
-        names = [c['prefix'] + s for s in SUFFIXES]
-        has = any(n in c['files'] for n in names)
+        jnames = [c['prefix'] + sfx for sfx in SUFFIXES]
+        has = any(n in before for n in jnames)
         if has and (res['refuses'] is not True or not res['check_refuses']):
             viol.append({'why': 'journal-present-new-run-starts', 'target': 'startup', 'case': c,
                          'impl': {'refuses': res['refuses']}})
-        elif res['refuses'] is True and res['after'] != c['files']:
+        elif res['refuses'] is True and after != before:
             viol.append({'why': 'refusing-run-changed-directory', 'target': 'startup', 'case': c, 'impl': {}})
         elif res['refuses'] not in (True, False):
             viol.append({'why': 'unexpected-exception', 'target': 'startup', 'case': c, 'impl': {'refuses': res['refuses']}})
         elif res['refuses'] != res['check_refuses']:
             viol.append({'why': 'constructor-and-check-disagree', 'target': 'startup', 'case': c, 'impl': {}})
-    return checks, viol
+    return items, viol
+
+
+def module_file(items):
+    """several cases in one file, each in its own module with its own constants; items = (defs, [terms])"""
+    out = [HEADER]
+    names = []
+    for i, (defs, terms) in enumerate(items):
+        body = '\n'.join(defs + ['Definition ok%d := %s.' % (k, t) for k, t in enumerate(terms)])
+        out.append('Module H%d.\n%s\nEnd H%d.' % (i, body, i))
+        names += ['H%d.ok%d' % (i, k) for k in range(len(terms))]
+    out.append('Definition checks : list bool := [%s].\nEval vm_compute in (failing checks).\n' % '; '.join(names))
+    return '\n'.join(out)
+
+
+# ---------------------------------------------------------------------------
+# histories: several appends with faults at arbitrary points, then (optionally) a kill
+# ---------------------------------------------------------------------------
+def history_cases(r, n):
+    cases = []
+    for i in range(n):
+        atts = []
+        for _ in range(r.randrange(2, 7)):
+            new = [r.choice([0, 1, 30, 90, 200]), r.choice(['text', 'rand', 'zeros'])]
+            t = r.randrange(10)
+            if t < 3:
+                plan = None
+            elif t < 8:
+                plan = {'mode': 'fault', 'kfrac': r.random(), 'done': r.random() < 0.5, 'pfrac': r.random()}
+                if r.random() < 0.2:
+                    plan['sticky'] = True
+            else:
+                plan = {'mode': 'pyfault', 'k': r.randrange(7)}
+            atts.append({'new': new, 'plan': plan})
+        if r.random() < 0.6:
+            atts.append({'new': [r.choice([0, 40, 150]), 'rand'],
+                         'plan': {'mode': 'crash', 'kfrac': r.random(), 'done': r.random() < 0.5, 'pfrac': r.random()}})
+        cases.append({'kind': 'history', 'compress': i % 2 == 1, 'bufsize': r.choice([None, 64, 64, 100]),
+                      'archive_state': r.choice(['normal', 'normal', 'absent', 'empty']), 'attempts': atts})
+    return cases
+
+
+def history_property(case, res):
+    """the property on a whole run, from the outcomes the implementation reported"""
+    A, J = res['archive'], res['journal']
+    compress = case['compress']
+    old = bytes.fromhex(res['before'].get(A, ''))
+    exp = old
+    last = None
+    for a in res['attempts']:
+        plan = a.get('plan') or {}
+        last = a
+        if a['outcome'].startswith('other'):
+            return 'unexpected-exception'
+        if a['outcome'] == 'crashed':
+            break
+        at_unlink = plan.get('mode') == 'fault' and plan.get('k') == a['n_events'] - 1
+        if a['outcome'] in ('completed', 'not-crashed') or (a['outcome'] == 'oserror' and at_unlink):
+            exp += bytes.fromhex(a['data'])
+    after = res['after']
+    arch = bytes.fromhex(after.get(A, ''))
+    if last is not None and last['outcome'] == 'crashed':
+        if not valid_archive(arch, compress):
+            mj = JOURNAL.match(bytes.fromhex(after.get(J, '')))
+            if not mj:
+                return 'history-crash-invalid-archive-no-journal'
+            off = int(mj.group(1))
+            if off != len(exp) or arch[:off] != exp or not valid_archive(arch[:off], compress):
+                return 'history-crash-truncation-wrong'
+        return None
+    if arch != exp:
+        return 'history-archive-not-the-surviving-records'
+    if not valid_archive(arch, compress):
+        return 'history-archive-invalid'
+    plan = (last or {}).get('plan') or {}
+    unlink_not_done = (last is not None and last['outcome'] == 'oserror' and plan.get('mode') == 'fault'
+                       and plan.get('k') == last['n_events'] - 1 and not plan.get('done'))
+    if (J in after) != unlink_not_done:
+        return 'history-journal-remains'
+    return None
+
+
+def history_terms(case, res):
+    """(definitions, check term) for one history"""
+    A, J = res['archive'], res['journal']
+    before = res['before']
+    after = res['after']
+    names = {A: 'nA', J: 'nJ'}
+    defs = ['Definition nA := %s.' % hx(A.encode()), 'Definition nJ := %s.' % hx(J.encode())]
+
+    def fs(files):
+        return '[' + '; '.join('(%s, %s)' % (names[fn], hx(bytes.fromhex(c)) if c else '[]') for fn, c in sorted(files.items())) + ']'
+    hist = []
+    final = None
+    for i, a in enumerate(res['attempts']):
+        defs.append('Definition d%d := %s.' % (i, hx(bytes.fromhex(a['data']))))
+        chunks = '(cuts d%d [%s])' % (i, '; '.join('%d%%nat' % n for n in a['sizes']))
+        plan = a.get('plan')
+        if plan is None:
+            adv = 'None'
+        elif plan['mode'] == 'pyfault':
+            adv = '(F 4 false [])' if a.get('fired') else 'None'
+        else:
+            w = '[]'
+            if plan['mode'] == 'crash' and plan.get('kind') == 'write':
+                k = plan['k']
+                if k == 1:
+                    w = hx(bytes.fromhex(after.get(J, '')))
+                else:
+                    data = bytes.fromhex(a['data'])
+                    pos = sum(a['sizes'][:k - 4])
+                    w = hx(data[pos:pos + plan.get('prefix', 0)])
+            adv = '(F %d %s %s)' % (plan['k'], 'true' if plan.get('done') else 'false', w)
+        if plan and plan['mode'] == 'crash':
+            final = (chunks, adv, 2 if a['outcome'] == 'crashed' else 0)
+        else:
+            hist.append('(%s, %s)' % (chunks, adv))
+    h = '[' + '; '.join(hist) + ']'
+    if final:
+        term = 'result_eqb (write_record nA %s None %s (run_history nA %s %s)) %d %s' % (
+            final[0], final[1], h, fs(before), final[2], fs(after))
+    else:
+        term = 'fs_eqb (run_history nA %s %s) %s' % (h, fs(before), fs(after))
+    return defs, [term]
+
+
+def gz_locality_cases(results, cfgs, r, n):
+    """samples for the hypothesis of the *_gz theorems: a gzip member decodes the same whatever follows it"""
+    members = []
+    for cfg, res in zip(cfgs, results):
+        if cfg['compress']:
+            for mb, _ in gz_split(bytes.fromhex(res['after_ref'][res['archive']]))[0]:
+                if mb not in members:
+                    members.append(mb)
+    cases = []
+    for i in range(n):
+        m = members[i % len(members)]
+        t = i % 5
+        y = [b'', members[(i * 7 + 1) % len(members)], bytes(r.randrange(256) for _ in range(r.randrange(1, 40))),
+             m[:r.randrange(1, len(m))], b'\x1f\x8b\x08'][t]
+        cases.append({'kind': 'gzsample', 'c': m.hex(), 'y': y.hex()})
+    return cases
 
 
 # ---------------------------------------------------------------------------
@@ -551,6 +795,17 @@ def _impl(cases, par=6):
     payloads = [{'cases': [c]} for c in cases]
     outs = common.run_impl_sharded('c06_impl.py', payloads, par=par)
     return [o['results'][0] for o in outs]
+
+
+def _eval(bodies, index, disagreements):
+    outs = common.coq_eval_many(bodies, par=6)
+    for (label, notes), (rc, out) in zip(index, outs):
+        fails = common.parse_vm_list(out) if rc == 0 else None
+        if fails is None:
+            disagreements.append({'config': label, 'coq_error': out[-800:]})
+            continue
+        for f in fails:
+            disagreements.append({'config': label, 'note': 'model result differs', 'run': notes[int(f)]})
 
 
 def correspondence(ctx):
@@ -564,13 +819,19 @@ def correspondence(ctx):
     dist = {}
     nontriv = set()
     evaluations = 0
+    reader_checks = 0
+    sim_checked = 0
     for ci, (cfg, res) in enumerate(zip(cfgs, results)):
         impl_violations += violations_of(cfg, res)
+        for run in res['runs']:
+            if run.get('real_kill_agrees') is False:
+                disagreements.append({'config': cfg, 'note': 'simulated kill and real kill (fork + _exit) leave different '
+                                      'directories', 'run': run['plan']})
+            sim_checked += 'real_kill_agrees' in run
         defs, checks, notes = model_check_terms(cfg, res)
-        per = 400
-        for i in range(0, len(checks), per):
-            bodies.append(cases_file(defs, checks[i:i + per]))
-            index.append((ci, notes[i:i + per]))
+        reader_checks += sum(1 for n in notes if str(n.get('what', '')).startswith(('strict reader', 'crash clause')))
+        bodies.append(cases_file(defs, checks))
+        index.append(({k: v for k, v in cfg.items() if k != 'extra_files'}, notes))
         evaluations += len(res['runs'])
         old = res['before'].get(res['archive'], '')
         for run in res['runs']:
@@ -582,49 +843,81 @@ def correspondence(ctx):
                 nontriv.add((ci, repr(sorted(p.items()))))
             if run['outcome'] == 'oserror' and run.get('fired') and (p['mode'] == 'pyfault' or p.get('k', 0) >= 1):
                 nontriv.add((ci, repr(sorted(p.items()))))
-    # start-up check
-    sc = startup_cases(r, 160 if not ctx.thorough else 1600)
+    # histories of appends with faults at arbitrary points
+    hc = history_cases(r, 32 if not ctx.thorough else 600)
+    hres = _impl(hc)
+    items = []
+    for c, res in zip(hc, hres):
+        why = history_property(c, res)
+        if why:
+            impl_violations.append({'why': why, 'target': 'history', 'case': c,
+                                    'impl': {'outcomes': [a['outcome'] for a in res['attempts']],
+                                             'after_sizes': {k: len(v) // 2 for k, v in res['after'].items()}}})
+        items.append(history_terms(c, res))
+        outs = [a['outcome'] for a in res['attempts']]
+        key = 'history/%s/%d-attempts/%d-failed%s' % (cfg_key(c), len(outs), outs.count('oserror'),
+                                                      '/killed' if 'crashed' in outs else '')
+        dist[key] = dist.get(key, 0) + 1
+        if outs.count('oserror') >= 1 and len(outs) >= 2:
+            nontriv.add(('history', repr(c)))
+    for i in range(0, len(items), 8):
+        bodies.append(module_file(items[i:i + 8]))
+        index.append(('history', [{'history': c} for c in hc[i:i + 8]]))
+    evaluations += len(hc)
+    # start-up: check + constructor
+    sc = startup_cases(r, 128 if not ctx.thorough else 1800)
     sres = common.run_impl('c06_impl.py', {'cases': sc}, repo=ctx.repo)['results']
-    schecks, sviol = startup_terms(sc, sres)
+    sitems, sviol = startup_terms(sc, sres)
     impl_violations += sviol
-    for i in range(0, len(schecks), 400):
-        bodies.append(cases_file([], schecks[i:i + 400]))
-        index.append((None, [{'startup': c} for c in sc[i:i + 400]]))
+    for i in range(0, len(sc), 64):
+        bodies.append(module_file(sitems[i:i + 64]))
+        index.append(('startup', [{'startup': c} for c in sc[i:i + 64] for _ in (0, 1)]))
     evaluations += len(sc)
     for c, sr in zip(sc, sres):
         key = 'startup/%s' % ('refused' if sr['refuses'] is True else 'started')
         dist[key] = dist.get(key, 0) + 1
-        if sr['refuses'] is True:
-            nontriv.add(('startup', c['prefix'], tuple(sorted(c['files']))))
-    outs = common.coq_eval_many(bodies, par=6)
-    for (ci, notes), (rc, out) in zip(index, outs):
-        fails = common.parse_vm_list(out) if rc == 0 else None
-        if fails is None:
-            disagreements.append({'config': cfgs[ci] if ci is not None else 'startup', 'coq_error': out[-800:]})
-            continue
-        for f in fails:
-            disagreements.append({'config': cfgs[ci] if ci is not None else 'startup', 'note': 'model result differs',
-                                  'run': notes[int(f)]})
+        if sr['refuses'] is True or c['tag'] == 7:
+            nontriv.add(('startup', c['prefix'], tuple(sorted(c['files'])), c['appending'], c['max_size']))
+    _eval(bodies, index, disagreements)
+    # assumption of the *_gz theorems, sampled on the real zlib
+    gc = gz_locality_cases(results, cfgs, r, 60 if not ctx.thorough else 600)
+    gres = common.run_impl('c06_impl.py', {'cases': gc}, repo=ctx.repo)['results']
+    gbad = 0
+    for c, g in zip(gc, gres):
+        ok = g['a'] is not None and g['b'] is not None and g['a'][0] == g['b'][0] and g['a'][1] == '' \
+            and g['b'][1] == c['y']
+        if not ok:
+            gbad += 1
+            if gbad <= 3:
+                disagreements.append({'config': 'gzip member locality (assumption sample) failed', 'run': c})
     samples = []
     for ci in (0, len(cfgs) // 2, len(cfgs) - 1):
         runs = results[ci]['runs']
         run = runs[len(runs) // 2]
         samples.append({'config': {k: v for k, v in cfgs[ci].items() if k != 'extra_files'}, 'plan': run['plan'],
                         'outcome': run['outcome'], 'files_after': {k: len(v) // 2 for k, v in run['after'].items()}})
+    samples.append({'history': [dict(a.get('plan') or {}, outcome=a['outcome']) for a in hres[0]['attempts']],
+                    'files_after': {k: len(v) // 2 for k, v in hres[0]['after'].items()}})
+    samples.append({'startup': sc[0]['prefix'], 'files': sorted(sc[0]['files']), 'refused': sres[0]['refuses']})
     return {
         'evaluations': evaluations,
         'distinct_nontrivial': len(nontriv),
         'exhaustive': True,
         'rule': 'every primitive (journal create/write/close, archive open, each raw write, close, final unlink) of one append, as '
                 'I/O error (not done / done; write prefixes 0, 1, half, all-but-one; sticky; Python-level write) and as kill, and for '
-                'every error every later event of that run (retry writes, closes, rollback open/truncate/close, unlink) as a kill; '
-                'x plain/gzip x archive absent / empty / 1 / 2 / 3 earlier records x 3 new-record shapes (empty block, multi-write '
-                'with a 64-byte buffer, single write); plus start-up checks over prefixes with glob characters and directories. '
-                'non-trivial = distinct (configuration, adversary) whose kill left a journal or a changed archive behind, or whose '
-                'I/O error came after the journal had been created; start-up cases that were refused',
+                'one representative error per primitive every later event of that run (retry writes, closes, rollback '
+                'open/truncate/close, unlink) as a kill; x plain/gzip x archive absent / empty / 1 / 2 / 3 earlier records x '
+                'new-record shapes (empty block, multi-write with a 64-byte buffer, single write with a block); random histories of 2-7 appends '
+                'with faults at arbitrary primitives and an optional final kill; start-up (check and constructor) over prefixes with '
+                'glob characters and directories, existing archives, sequence numbers. non-trivial = distinct (configuration, '
+                'adversary) whose kill left a journal or a changed archive behind, or whose I/O error came after the journal had '
+                'been created; histories with a failed append among several; start-up cases refused or run over existing archives',
         'samples': samples,
         'input_distribution': dist,
         'configurations': len(cfgs),
+        'strict_reader_evaluations_in_coq': reader_checks,
+        'simulated_kills_cross_checked_against_real_kills': sim_checked,
+        'oracle_samples': {'gzip_member_front_locality_checked': len(gc), 'failed': gbad},
         'disagreements': disagreements,
         'impl_violations': impl_violations,
     }
@@ -639,6 +932,11 @@ def search(ctx, disagreements):
     for cfg, res in zip(cfgs, _impl(cfgs)):
         out += violations_of(cfg, res)
     r = common.rng('c06-search')
+    hc = history_cases(r, 300)
+    for c, res in zip(hc, _impl(hc)):
+        why = history_property(c, res)
+        if why:
+            out.append({'why': why, 'target': 'history', 'case': c, 'impl': {'outcomes': [a['outcome'] for a in res['attempts']]}})
     sc = startup_cases(r, 800)
     sres = common.run_impl('c06_impl.py', {'cases': sc}, repo=ctx.repo)['results']
     out += startup_terms(sc, sres)[1]
@@ -647,6 +945,9 @@ def search(ctx, disagreements):
 
 def replay(ctx, data):
     case = dict(data['case'])
+    if case.get('kind') == 'history':
+        res = common.run_impl('c06_impl.py', {'cases': [case]}, repo=ctx.repo)['results'][0]
+        return history_property(case, res) is not None
     if case.get('kind') == 'startup':
         res = common.run_impl('c06_impl.py', {'cases': [case]}, repo=ctx.repo)['results']
         return bool(startup_terms([case], res)[1])
